@@ -193,9 +193,12 @@ def run(ctx, chk, tier="quick"):
     if unpack and len(unpack) == len(rnames) == 2:
         for u, r in zip(unpack, rnames):
             role[u] = "grid" if r == grid_name else ("step" if r == step_name else None)
-    chk.ob("C10.O1", sorted(v for v in role.values() if v) == ["grid", "step"], where_of(load, load.node),
-           "load_data receives %s from populate_grid_time returning %s" % (unpack, rnames), "(grid, step) unpacked in the order returned",
-           key="load_data|grid-step-unpack")
+    if not unpack or not rnames or None in unpack or None in rnames or grid_name is None or step_name is None or not {grid_name, step_name} <= set(rnames):
+        chk.indeterminate("C10.O1", where_of(load, load.node), "how load_data receives (grid, step) from populate_grid_time is not recognised: %s <- %s" % (unpack, rnames))
+    else:
+        chk.ob("C10.O1", sorted(v for v in role.values() if v) == ["grid", "step"], where_of(load, load.node),
+               "load_data receives %s from populate_grid_time returning %s" % (unpack, rnames), "(grid, step) unpacked in the order returned",
+               key="load_data|grid-step-unpack")
 
     # ------------------------------------------------------------ O2
     shapes = {}
